@@ -572,6 +572,22 @@ fn worker_main<E: Engine>(args: &Args, i: u64, n: u64) -> i32 {
         let v = exec::<E>(prop, &cfg, &mut ch, &mut ctx);
         record(&mut out, &ctx, &mut nontrivial, &mut all, ch.taken.len());
         let h1 = ctx.trace_hash();
+        let trace_env = std::env::var("VERIF_TRACE_SEED").ok();
+        if trace_env.as_deref() == Some("all") || trace_env.and_then(|s| s.parse::<u64>().ok()) == Some(seed) {
+            let mut cx = RunCtx::new(true);
+            let mut chx = Chooser::replay(ch.taken.clone());
+            let _ = exec::<E>(prop, &cfg, &mut chx, &mut cx);
+            eprintln!("TRACE seed={seed} replay-hash={:016x} first-hash={h1:016x}", cx.trace_hash());
+            for a in &ch.taken {
+                eprintln!("  act {}", serde_json::to_string(a).unwrap());
+            }
+            for e in cx.trace.unwrap_or_default() {
+                eprintln!("  | {e}");
+            }
+        }
+        if std::env::var("VERIF_TRACE_RUNS").is_ok() {
+            eprintln!("run seed={seed} hash={h1:016x} sim_ms={} nontrivial={}", ctx.sim_ms, ctx.nontrivial);
+        }
         if let Some(v) = v {
             found(&mut out, &mut seen_keys, seed, "random", v, &cfg, &ch.taken);
         } else if (k / n) % det_every == 0 {
